@@ -126,6 +126,12 @@ class Interp:
       return self.cond(params, ins)
     if name == 'shard_map':
       return self.shard_map(params, ins)
+    if name == 'custom_linear_solve' and any(is_sym(x) for x in ins):
+      cl = params['const_lengths']; jp = params['jaxprs']
+      n_m, n_v, n_s, n_t = cl.matvec, cl.vecmat, cl.solve, cl.transpose_solve
+      solve_consts = ins[n_m + n_v:n_m + n_v + n_s]
+      b = ins[n_m + n_v + n_s + n_t:]
+      return self.eval(jp.solve.jaxpr, jp.solve.consts, *solve_consts, *b)
     if not any(is_sym(x) for x in ins):
       return self.concrete(prim, params, ins)
     self.sym_prims[name] += 1
@@ -212,6 +218,8 @@ class Interp:
       return b.dot_general(a, dims, False)
     if name in ('scatter-add', 'scatter_add'):
       return self.linear_fallback(prim, params, ins)
+    if name == 'triangular_solve' and not is_sym(ins[0]):
+      return self.linear_fallback(prim, params, ins)
     if name == 'dynamic_slice' and any(is_sym(x) for x in ins[1:]):
       return _term.dynamic_slice(ins, params)
     if name == 'gather' and is_sym(ins[1]):
@@ -275,33 +283,27 @@ class Interp:
     return back(out)
 
   def linear_fallback(self, prim, params, ins):
-    """Primitive that is jointly linear in its float operands: use its Jacobian."""
-    sym0 = next(x for x in ins if is_sym(x))
-    data_pos = [i for i, x in enumerate(ins)
-                if is_sym(x) or (isinstance(x, np.ndarray) and x.dtype.kind == 'f')]
-    shapes = [tuple(np.shape(ins[i])) for i in data_pos]
+    """Primitive that is affine in its SYMBOLIC operands (concrete ones held fixed): constant part
+    from evaluation at zero, linear part from its Jacobian (computed by JAX on the real primitive)."""
+    data_pos = [i for i, x in enumerate(ins) if is_sym(x)]
+    shapes = [tuple(ins[i].shape) for i in data_pos]
 
     def f(*data):
       full = list(ins)
       for i, d in zip(data_pos, data):
         full[i] = d
-      return prim.bind(*[jnp.asarray(v) if not isinstance(v, jax.Array) else v for v in full], **params)
+      out = prim.bind(*[jnp.asarray(v) if not isinstance(v, jax.Array) else v for v in full], **params)
+      return out[0] if prim.multiple_results else out
     zeros = [jnp.zeros(s) for s in shapes]
     out0 = np.asarray(f(*zeros))
-    if np.any(out0 != 0):
-      raise Unsupported('linear fallback: not homogeneous')
     jac = jax.jacfwd(f, argnums=tuple(range(len(data_pos))))(*zeros)
-    res = None
-    for i, J, shp in zip(data_pos, jac, shapes):
+    res = out0 if np.any(out0 != 0) else None
+    for i, J in zip(data_pos, jac):
       J = np.asarray(J).reshape(out0.size, -1)
       x = ins[i]
-      if is_sym(x):
-        contrib = x.reshape((x.size,)).linmap(sps.csr_matrix(J), out0.shape)
-      else:
-        contrib = (J @ np.asarray(x, float).reshape(-1)).reshape(out0.shape)
-      res = contrib if res is None else (res.add(contrib) if is_sym(res) else
-                                         (contrib.add(res) if is_sym(contrib) else res + contrib))
-    return res
+      contrib = x.reshape((x.size,)).linmap(sps.csr_matrix(J), out0.shape)
+      res = contrib if res is None else (contrib.add(res) if not is_sym(res) else res.add(contrib))
+    return [res] if prim.multiple_results else res
 
   # ------------------------------------------------------------------ control flow
   def scan(self, params, ins):
